@@ -324,9 +324,15 @@ def gen_world(src, profile):
             a["do_not_copy"] = src.pick(["attr", "decorator"])
         attrs.append(a)
 
+    # invalidated_by: only by attributes declared earlier (no cycles: the library recurses on them)
+    if profile.get("invalidation", True):
+        for i, a in enumerate(attrs):
+            if i and src.chance(1, 6):
+                a["invalidated_by"] = [attrs[src.choice(i)]["name"]]
+
     # explicit Attr flags need an Attr-style default
     for a in attrs:
-        if any(k in a for k in ("init", "repr", "compare")) or a.get("do_not_copy") == "attr":
+        if any(k in a for k in ("init", "repr", "compare", "invalidated_by")) or a.get("do_not_copy") == "attr":
             if a["default"][0] in ("none", "lit", "field_default", "field_factory"):
                 a["default"] = ["attr_default" if a["default"][0] != "none" else "attr_none"] + a["default"][1:]
         if a.get("init") is False and a["default"][0] in ("none", "attr_none"):
